@@ -68,6 +68,11 @@ def build():
         h.root('neg__%s__r' % m, '%s(a: &%s) -> %s' % (g, Tm, Tm), '-a', ('value', neg))
         h.root('lerp__' + m, '%s(a: %s, b: %s, t: S) -> %s' % (g, Tm, Tm, Tm), 'VectorSpace::lerp(a, b, t)',
                ('value', [[a[c][r] + (b[c][r] - a[c][r]) * ss('a2') for r in range(n)] for c in range(n)]))
+    # scalar on the left: s op M applies the primitive op to every element, scalar first
+    for n, M in MAT.items():
+        for p_ in ['usize', 'u8', 'u16', 'u32', 'u64', 'isize', 'i8', 'i16', 'i32', 'i64', 'f32', 'f64']:
+            for op in ('mul', 'div', 'rem'):
+                h.root('left_%s__%s__m%d' % (op, p_, n), '(a: %s, b: %s<%s>) -> %s<%s>' % (p_, M, p_, M, p_), 'a %s b' % OPS[op], ('left', op, n * n, p_))
     # translation / scale constructors and their action
     Z, I = ZERO, ONE
     t2, t3 = sv('a0', 2), sv('a0', 3)
@@ -134,7 +139,8 @@ def run(tier):
     mono = h.monomorphise(['f32', 'f64'], bound='<S: BaseFloat>') if tier == 'thorough' else []
     S, inv, meta = facts.extract(PROP, h.src())
     report_dropped(run, meta)
-    run_specs(run, S, h)
+    from c17 import check_left
+    run_specs(run, S, h, custom={'left': check_left})
     run.floor('roots', len(run.roots), len(h.specs))
     if mono:
         run.notes['monomorphic_instantiations'] = {'types': ['f32', 'f64'], 'roots': len(mono)}
